@@ -8,10 +8,11 @@
 #include <sys/wait.h>
 #include <pthread.h>
 
-enum { K_KEY, K_VALUE, K_CONT, K_SECTION, K_CBEFORE, K_CAFTER, K_CBLOCK2, K_CBLOCK3, K_DROPNAME, K_PATH, K_OPTION, K_TOOLARG, K_MANY, K_POSTFIX, K_N };
+enum { K_KEY, K_VALUE, K_CONT, K_SECTION, K_CBEFORE, K_CAFTER, K_CBLOCK2, K_CBLOCK3, K_DROPNAME, K_PATH, K_OPTION, K_TOOLARG, K_MANY, K_POSTFIX, K_LADDER, K_N };
 static const char *KN[K_N] = { "key", "value", "continuation line", "section name", "comment before", "comment after", "second line of a comment block", "all three lines of a comment block", "drop-in file name",
                                "path length", "option string", "econftool --delimiters", "16 entries, each with value, comment before and comment after of this length",
-                               "drop-in directory postfix (second item of a list whose first item is .d)" };
+                               "drop-in directory postfix (second item of a list whose first item is .d)",
+                               "ladder of file names read one after the other in one process (0: 1..255 ascending, 1: 60..20 descending then 61..100, 2: steps of 7 then of 1)" };
 static const size_t LEN[] = { 1, 8190, 8191, 8192, 8193, 8194, 16384, 65536, 262144, 1048576 };
 static const size_t PLEN[] = { 4000, 4090, 4094, 4095, 4096, 4097, 4098, 4200 };
 static const size_t NLEN[] = { 100, 254, 255 };
@@ -24,6 +25,7 @@ static void gen(void)
   if (kind == K_DROPNAME) li = mc_choose(3);
   else if (kind == K_PATH) li = mc_choose(8);
   else if (kind == K_MANY) li = 7;
+  else if (kind == K_LADDER) li = mc_choose(3);
   else if (kind == K_POSTFIX) li = mc_choose(3);                    /* 64 KiB per field, 3 MiB in the file */
   else if (kind == K_TOOLARG) li = mc_choose(8);      /* one argv string is limited to 128 KiB by the kernel */
   else li = mc_choose(with_1m ? 10 : 9);
@@ -402,6 +404,43 @@ static void postfix_case(const char *sig)
   free(post);
 }
 
+/* buffers that are sized by what was seen BEFORE: names of many lengths are read one after the other in one process; after every
+ * read the path query, the error location and the content must be those of the file just read */
+static void ladder_case(const char *sig)
+{
+  char dir[400]; snprintf(dir, sizeof dir, "%s/ladder", mc_work); mkdir(dir, 0755);
+  size_t seq[600]; int n = 0;
+  if (li == 0) for (size_t l = 1; l <= 255; l++) seq[n++] = l;
+  else if (li == 1) { for (size_t l = 60; l >= 20; l--) seq[n++] = l; for (size_t l = 61; l <= 100; l++) seq[n++] = l; }
+  else { for (size_t l = 3; l <= 255; l += 7) { seq[n++] = l; seq[n++] = l + 1 <= 255 ? l + 1 : l; seq[n++] = l > 1 ? l - 1 : l; } }
+  for (int i = 0; i < n && !mc_case_failed; i++) {
+    size_t L = seq[i];
+    char *name = pattern(L, 3 + (unsigned)li);
+    if (L >= 6) memcpy(name + L - 5, ".conf", 5);
+    sbuf full = {0}; sb_printf(&full, "%s/%s", dir, name);
+    char content[64]; int cl = snprintf(content, sizeof content, "k=%zu\n", L);
+    mc_write_file(full.s, content, (size_t)cl);
+    econf_file *kf = NULL;
+    econf_err rc = econf_readFile(&kf, full.s, "=", "#");
+    mc_st->libcalls++;
+    if (rc || !kf) mc_fail(sig, "step %d: a file with a %zu-byte name cannot be read: %d; %s", i, L, (int)rc, sig);
+    else {
+      char what[100];
+      char *p = econf_getPath(kf); snprintf(what, sizeof what, "step %d (name of %zu bytes): econf_getPath", i, L); expect_str(what, p, full.s, sig); free(p);
+      char *fn = NULL; uint64_t ln = 0; econf_errLocation(&fn, &ln);
+      snprintf(what, sizeof what, "step %d (name of %zu bytes, previous name %zu bytes): econf_errLocation file name", i, L, i ? seq[i - 1] : 0); expect_str(what, fn, full.s, sig); free(fn);
+      char *v = NULL; char want[32]; snprintf(want, sizeof want, "%zu", L);
+      if (econf_getStringValue(kf, NULL, "k", &v) || !v || strcmp(v, want)) mc_fail(sig, "step %d: content of the file with the %zu-byte name is wrong (%s); %s", i, L, v ? v : "<none>", sig);
+      free(v);
+      econf_ext_value *ev = NULL;
+      if (!econf_getExtValue(kf, NULL, "k", &ev) && ev) { snprintf(what, sizeof what, "step %d (name of %zu bytes): file of the extended value", i, L); expect_str(what, ev->file, full.s, sig); econf_freeExtValue(ev); }
+      econf_freeFile(kf);
+    }
+    unlink(full.s); sb_free(&full); free(name);
+  }
+  rmdir(dir);
+}
+
 static void toolarg_case(const char *sig)
 {
   size_t L = LEN[li];
@@ -441,13 +480,14 @@ static void *exec_on_small_stack(void *arg)
   else if (kind == K_PATH) path_case(sig);
   else if (kind == K_MANY) many_case(sig);
   else if (kind == K_POSTFIX) postfix_case(sig);
+  else if (kind == K_LADDER) ladder_case(sig);
   return NULL;
 }
 
 static void exec(void)
 {
   char *sig = exec_sig;
-  size_t L = kind == K_DROPNAME ? NLEN[li] : kind == K_PATH ? PLEN[li] : kind == K_POSTFIX ? POSTLEN[li] : LEN[li];
+  size_t L = kind == K_DROPNAME ? NLEN[li] : kind == K_PATH ? PLEN[li] : kind == K_POSTFIX ? POSTLEN[li] : kind == K_LADDER ? (size_t)(li + 2) : LEN[li];
   snprintf(sig, sizeof exec_sig, "field=%s length=%zu", KN[kind], L);
   snprintf(mc_case_sig, sizeof mc_case_sig, "%s", sig);
   mc_log("%s\n", sig);
